@@ -216,6 +216,28 @@ def gen_lex_grammar(rng, safe_regdefs=True, nullable_bodies=False, max_tokens=6,
     return LexGrammar(prods, strlits), alpha
 
 
+def wide_prefix_grammar(rng):
+    """One token with 10-14 alternatives, among them a word of 4-6 characters (as alternative 1) and all its proper prefixes: two-digit
+    alternative / term indices, and items of one pattern that differ only in how their position stack splits into numbers."""
+    alpha = list(rng.choice(["abc<=", "ab01", "xyz+-"]))
+    n = rng.randint(10, 14)
+    w = [rng.choice(alpha) for _ in range(rng.randint(4, 6))]
+    alts = [None] * n
+    alts[0] = [rng.choice(alpha)]
+    alts[1] = list(w)
+    free = list(range(2, n))
+    rng.shuffle(free)
+    for k in range(1, len(w)):
+        if free:
+            alts[free.pop()] = w[:k]
+    for i in range(n):
+        if alts[i] is None:
+            alts[i] = [rng.choice(alpha) for _ in range(rng.randint(1, 3))]
+    pat = [[("chr", ord(c)) for c in a] for a in alts]
+    prods = [("op", pat), ("t1", [[("chr", ord("z")), ("chr", ord("z"))]]), ("!ws", [[("chr", 32)], [("chr", 10)]])]
+    return LexGrammar(prods, []), alpha + [" ", "z"]
+
+
 # ---------------------------------------------------------------- inputs
 def enc(s):
     return s.encode("utf-8", "surrogatepass")
